@@ -158,12 +158,18 @@ structure Views where
   look : List (Bytes × Bytes)             -- c.Cookies(name) for some names
   bind : List (Bytes × List Bytes)        -- Bind().Cookie(&map[string][]string{}), names in order
   hdr : Bytes                             -- c.Get("Cookie")
+  more : List Bytes := []                 -- every other rendering of the Cookie header a handler can ask
+                                          -- for: Header.PeekAll("Cookie"), the Cookie line of the
+                                          -- re-serialised header block (Header.String()/Header()),
+                                          -- GetReqHeaders()["Cookie"] — as a set
+deriving DecidableEq, Repr
 
 /-- the views a handler behind the middleware gets for request cookies `j` (`ks` = names it looks up) -/
 def modelViews (C : Codec) (ex : List Bytes) (j : Jar) (ks : List Bytes) : Views :=
   let e := decryptJar C ex j
   { enum := e, look := ks.map fun k => (k, lookup e k),
-    bind := (distinctKeys e).map fun k => (k, bindValues e k), hdr := cookieHeader e }
+    bind := (distinctKeys e).map fun k => (k, bindValues e k), hdr := cookieHeader e,
+    more := [cookieHeader e] }
 
 /-! ## response cookies -/
 
@@ -244,5 +250,143 @@ def oldEncVisit (C : Codec) (ex : List Bytes) (parse : Bytes → Bytes × Bytes 
 def encryptJarOld (C : Codec) (ex : List Bytes) (parse : Bytes → Bytes × Bytes × Bytes)
     (ns : List Bytes) (j : Jar) : Option Jar :=
   ((List.range j.length).foldl (oldEncVisit C ex parse) (some (j, ns))).map (·.1)
+
+/-! ## the whole handler of `New`: `Config.Next`, failing / panicking code, what surrounds it
+
+Everything above is one of the two loops. This part puts them into the handler function
+`New` returns, with every way control can leave it:
+
+  * `cfg.Next != nil && cfg.Next(c)`  → `return c.Next()`: neither loop runs (`skip`);
+  * a custom Decryptor that PANICS (an error is just `""`): the panic leaves the handler before
+    any handler behind it ran (`decPanics`);
+  * the handlers behind return `nil`, return an error, or panic (`Flow`); the response loop runs in
+    all three cases (it is deferred – fix F3);
+  * the Encryptor fails (error or panic – both end in a panic of the request): the response loop
+    stops there, the cookies re-added so far are all that is left in the response (`encryptRun`);
+  * code that is NOT behind the middleware writes cookies after it returned: middleware registered
+    in front of it (after its own `c.Next()`), the app's ErrorHandler (`Late`, `applyLate`);
+  * a recover middleware in front of it turns a panic into an error response (`recover`).
+-/
+
+/-- how the handlers behind the middleware end: `return nil`, `return err`, `panic` -/
+inductive Flow where
+  | ok | err | panic
+deriving DecidableEq, Repr
+
+/-- the views of request cookies `j` as they are (no middleware, or `cfg.Next(c)` said skip) -/
+def rawViews (j : Jar) (ks : List Bytes) : Views :=
+  { enum := j, look := ks.map fun k => (k, lookup j k),
+    bind := (distinctKeys j).map fun k => (k, bindValues j k), hdr := cookieHeader j,
+    more := [cookieHeader j] }
+
+/-- encryptcookie.go `New`: `if cfg.Next != nil && cfg.Next(c) { return c.Next() }`, else the request
+    loop – what the handlers behind see -/
+def mwViews (skip : Bool) (C : Codec) (ex : List Bytes) (j : Jar) (ks : List Bytes) : Views :=
+  if skip then rawViews j ks else modelViews C ex j ks
+
+/-- the request loop calls `cfg.Decryptor` for the first cookie of every non-excepted name, in order;
+    a Decryptor that panics on one of them (`decPanics`) takes the whole request down before any
+    handler behind the middleware ran -/
+def reqPanics (decPanics : Bytes → Bool) (ex : List Bytes) (j : Jar) : Bool :=
+  (firsts [] j).any fun e => !isDisabled e.1 ex && decPanics e.2
+
+/-- a response cookie the middleware did not touch (stored key and text as they are) -/
+def keep (c : RCookie) : WCookie :=
+  { key := c.key, raw := c.raw, pkey := c.pkey, value := c.pvalue, tail := c.tail }
+
+/-- an excepted cookie, re-added verbatim with `Header.Add` (fasthttp derives the stored key anew) -/
+def asIs (c : RCookie) : WCookie :=
+  { key := getCookieKey c.raw, raw := c.raw, pkey := c.pkey, value := c.pvalue, tail := c.tail }
+
+/-- a cookie re-rendered with the encrypted value `e` -/
+def sealedCookie (c : RCookie) (e : Bytes) : WCookie :=
+  { key := getCookieKey (render c.pkey e c.tail), raw := render c.pkey e c.tail,
+    pkey := c.pkey, value := e, tail := c.tail }
+
+/-- The response loop with its failure made visible: the cookies added back when the loop ends, and
+    whether it ran to the end. It ends early (`panic(err)`) at the first cookie whose encryption
+    fails; the cookies after it were deleted by `DelAllCookies()` and are not added back. -/
+def encryptRun (C : Codec) (ex : List Bytes) : List Bytes → List RCookie → List WCookie × Bool
+  | _, [] => ([], true)
+  | ns, c :: r =>
+    if isDisabled c.key ex then
+      (asIs c :: (encryptRun C ex ns r).1, (encryptRun C ex ns r).2)
+    else
+      match ns with
+      | [] => ([], false)
+      | n :: ns' =>
+        match C.enc n c.pvalue with
+        | none => ([], false)
+        | some e => (sealedCookie c e :: (encryptRun C ex ns' r).1, (encryptRun C ex ns' r).2)
+
+/-- a cookie written after the middleware returned, by code that is not behind it -/
+structure Late where
+  replace : Bool     -- `c.Cookie(…)` = `ResponseHeader.SetCookie` (replace the first cookie stored under
+                     -- that key, else append) / false: `Header.Add("Set-Cookie", …)` (append)
+  w : WCookie
+deriving DecidableEq, Repr
+
+/-- fasthttp `setArgBytes` on the response cookies: replace the FIRST cookie stored under the key -/
+def setW : List WCookie → WCookie → List WCookie
+  | [], w => [w]
+  | x :: r, w => if x.key = w.key then w :: r else x :: setW r w
+
+def applyLate (ws : List WCookie) (ops : List Late) : List WCookie :=
+  ops.foldl (fun acc o => if o.replace then setW acc o.w else acc ++ [o.w]) ws
+
+/-- a configured middleware instance -/
+structure Mw where
+  codec : Codec
+  decPanics : Bytes → Bool     -- texts on which a custom Decryptor panics (never, for utils.go's)
+  except : List Bytes
+
+/-- config.go defaults: utils.go's pair; `DecryptCookie` has no panicking path (the slice
+    `enc[:nonceSize]` is guarded by the length test) -/
+def stdMw (A : Aead) (key : Bytes) (ex : List Bytes) : Mw :=
+  { codec := stdCodec A key, decPanics := fun _ => false, except := ex }
+
+/-- one request/response exchange through the handler `New` returns, with its surroundings -/
+structure Exchange where
+  skip : Bool                -- `cfg.Next != nil && cfg.Next(c)`
+  jar : Jar                  -- request cookies as they arrive
+  ks : List Bytes            -- names the handlers look up
+  opre : List RCookie        -- response cookies already there when the middleware is entered
+  cookies : List RCookie     -- response cookies when the handlers behind it are done (incl. `opre`)
+  flow : Flow                -- how the handlers behind it end
+  nonces : List Bytes        -- what `rand.Reader` delivers
+  recover : Bool             -- a recover middleware is registered in front
+  late : List Late           -- cookie writes executed after the middleware was left
+
+structure Outcome where
+  views : Option Views            -- `none`: no handler behind the middleware ran
+  mid : List WCookie              -- response cookies when the middleware is left (returning or panicking)
+  wire : Option (List WCookie)    -- what is sent; `none`: the panic reached the server loop
+deriving DecidableEq
+
+/-- encryptcookie.go `New`, the returned handler, start to end -/
+def serve (m : Mw) (x : Exchange) : Outcome :=
+  if x.skip then
+    let mid := x.cookies.map keep
+    { views := some (rawViews x.jar x.ks), mid := mid,
+      wire := if x.flow = Flow.panic && !x.recover then none else some (applyLate mid x.late) }
+  else if reqPanics m.decPanics m.except x.jar then
+    let mid := x.opre.map keep
+    { views := none, mid := mid, wire := if x.recover then some (applyLate mid x.late) else none }
+  else
+    let run := encryptRun m.codec m.except x.nonces x.cookies
+    { views := some (modelViews m.codec m.except x.jar x.ks), mid := run.1,
+      wire := if (x.flow = Flow.panic || !run.2) && !x.recover then none
+              else some (applyLate run.1 x.late) }
+
+/-- the faulty custom pair of the harness: around `wrapCodec`, an Encryptor that returns an error for
+    values starting with `ERR` and panics for values starting with `PANIC` (both end the request with
+    a panic), a Decryptor that panics on texts starting with `PANIC` -/
+def faultyEnc (v : Bytes) : Bool := hasPrefix v (b "ERR") || hasPrefix v (b "PANIC")
+
+def faultyCodec (C : Codec) : Codec :=
+  { enc := fun nonce v => if faultyEnc v then none else (wrapCodec C).enc nonce v,
+    dec := (wrapCodec C).dec }
+
+def faultyDecPanics (s : Bytes) : Bool := hasPrefix s (b "PANIC")
 
 end C20
